@@ -112,11 +112,11 @@ def read_events(case, lines):
             continue
         e = json.loads(ln)
         if e["op"] == "open":
-            evs.append({"op": "scan", "refs": [], "logs": [], "err": "C: cannot open table: %d" % e["err"], "min": 0, "max": 0})
+            evs.append({"op": "scan", "refs": [], "logs": [], "err": "C: cannot open table: %d" % e["err"], "min": 0, "max": 0, "reuse": ""})
         elif e["op"] == "scan":
             err = "" if e["referr"] == 0 and e["logerr"] == 0 else "C: scan error %d/%d" % (e["referr"], e["logerr"])
             evs.append({"op": "scan", "refs": [conv_ref(rk, r) for r in e["refs"]], "logs": [conv_log(rk, l) for l in e["logs"]["l"]],
-                        "err": err, "min": e["min"], "max": e["max"]})
+                        "err": err, "min": e["min"], "max": e["max"], "reuse": ""})
         elif e["op"] == "seekref":
             name = unhx(e["name"])
             refs = [conv_ref(rk, r) for r in e["refs"]]
